@@ -20,6 +20,9 @@ fn class_of<'a>(type_map: &'a TypeMap, name: &str) -> Option<Class<'a>> {
     let name = if let Some(n) = name.strip_prefix("m2:") {
         assert!(module.import_module(ModuleId::Named("m2")));
         n
+    } else if let Some(n) = name.strip_prefix("m1:") {
+        assert!(module.import_module(ModuleId::Named("m1")));
+        n
     } else {
         assert!(module.import_module(ModuleId::Named("m")));
         name
@@ -130,6 +133,14 @@ pub fn cmd_typemap() {
             let classes2: Vec<metatype::Class> = cs.iter().map(|c| serde_json::from_value(c.clone()).expect("class json")).collect();
             let mut m2 = ModuleData::with_builtins();
             m2.import_module(ModuleId::Named("m"));
+            if let Some(cs1) = req["classes1"].as_array() {
+                // a third module, imported by the second AFTER the first: the later import wins for a name both provide
+                let classes1: Vec<metatype::Class> = cs1.iter().map(|c| serde_json::from_value(c.clone()).expect("class json")).collect();
+                let mut m1 = ModuleData::with_builtins();
+                m1.extend(classes1);
+                type_map.insert_module(ModuleId::Named("m1"), m1);
+                m2.import_module(ModuleId::Named("m1"));
+            }
             m2.extend(classes2);
             type_map.insert_module(ModuleId::Named("m2"), m2);
         }
